@@ -13,5 +13,6 @@ CONSTANTS
   MaxStore = 0
   CtxMode = "ignored"
   MaxStalls = 0
+  StaleNextHop = FALSE
 PROPERTIES StrictProp
 POSTCONDITION Consumed
